@@ -72,10 +72,11 @@ func (l *Lexer) NextToken() token.Token {
 	var tok token.Token
 	l.skipWhitespace()
 
-	// skip single-line comments
-	if l.ch == rune('/') && l.peekChar() == rune('/') {
+	// skip single-line comments - in a loop, not by calling ourselves
+	// again, so that any number of consecutive comments can be skipped
+	// without using one stack-frame per comment.
+	for l.ch == rune('/') && l.peekChar() == rune('/') {
 		l.skipComment()
-		return (l.NextToken())
 	}
 
 	switch l.ch {
